@@ -385,29 +385,54 @@ func eqPlain(a, b value) (r bool) {
 	return false
 }
 
-// symElemPtr is the address of element idx (symbolic, already known to be in
-// range) of a small array or slice. Loads produce an ITE chain, stores a guarded
-// write to every element.
+// symElemPtr is the address of one of several storage cells selected by a
+// symbolic index (already known to be in range): cells[k] is the candidate for
+// idx == lo+k. It arises from a[i] with symbolic i, and is propagated through
+// field selection and constant indexing (&a[i].f, &a[i][3]). Loads produce an
+// ITE chain, stores a guarded write to every candidate cell.
 type symElemPtr struct {
-	elems []value
+	cells []*value
 	idx   *Term // 64-bit
-	lo, hi int  // feasible index range [lo, hi]
+	lo    int
 }
 
-func (p symElemPtr) load() value {
-	res := p.elems[p.hi]
-	for i := p.hi - 1; i >= p.lo; i-- {
-		c := mkEq(p.idx, mkConst(uint64(i), 64))
-		res = symIteValue(c, p.elems[i], res)
+func (p symElemPtr) cond(k int) *Term { return mkEq(p.idx, mkConst(uint64(p.lo+k), 64)) }
+
+func (p symElemPtr) load(T types.Type) value {
+	n := len(p.cells)
+	res := load(T, p.cells[n-1])
+	for k := n - 2; k >= 0; k-- {
+		res = symIteValue(p.cond(k), load(T, p.cells[k]), res)
 	}
 	return res
 }
 
-func (p symElemPtr) store(v value) {
-	for i := p.lo; i <= p.hi; i++ {
-		c := mkEq(p.idx, mkConst(uint64(i), 64))
-		p.elems[i] = symIteValue(c, v, p.elems[i])
+func (p symElemPtr) store(T types.Type, v value) {
+	for k, c := range p.cells {
+		store(T, c, symIteValue(p.cond(k), v, load(T, c)))
 	}
+}
+
+// field returns &p->field.
+func (p symElemPtr) field(f int) symElemPtr {
+	q := symElemPtr{cells: make([]*value, len(p.cells)), idx: p.idx, lo: p.lo}
+	for k, c := range p.cells {
+		q.cells[k] = &(*c).(structure)[f]
+	}
+	return q
+}
+
+// index returns &(*p)[i] for a concrete i (p points to arrays).
+func (p symElemPtr) index(i int64) symElemPtr {
+	q := symElemPtr{cells: make([]*value, len(p.cells)), idx: p.idx, lo: p.lo}
+	for k, c := range p.cells {
+		a := (*c).(array)
+		if i < 0 || i >= int64(len(a)) {
+			panic(runtimePanic(fmt.Sprintf("index out of range [%d] with length %d", i, len(a))))
+		}
+		q.cells[k] = &a[i]
+	}
+	return q
 }
 
 // containsSym reports whether v (recursively through arrays/structs/ifaces)
